@@ -6,7 +6,7 @@ let rec chunks n l = if l = [] then [] else
   let rec take k l acc = if k = 0 then (List.rev acc, l) else match l with [] -> (List.rev acc, []) | x :: r -> take (k - 1) r (x :: acc) in
   let (a, b) = take n l [] in a :: chunks n b
 
-(* attribute spec: type.dt.nc.norm.uid.kind.rowshex ; kind = G | I/pred/builtin/level | Q/q/pred/builtin/level/explicit *)
+(* attribute spec: type.dt.nc.norm.uid.kind.rowshex ; kind = G | I/pred/builtin/level | Q/q/pred/builtin/level/explicit | N/q/pred/builtin/level *)
 type aspec = { desc : att_desc; kindtxt : string list; rows : z list list }
 let parse_att (s : string) : aspec =
   match String.split_on_char '.' s with
@@ -19,7 +19,7 @@ let parse_att (s : string) : aspec =
     { desc = d; kindtxt = String.split_on_char '/' kind; rows = chunks ncn comps }
   | _ -> failwith ("att " ^ s)
 let needs_method a = match a.kindtxt with
-  | "I" :: _ :: b :: _ -> b = "1" | "Q" :: _ :: _ :: b :: _ -> b = "1" | _ -> false
+  | "I" :: _ :: b :: _ -> b = "1" | "Q" :: _ :: _ :: b :: _ -> b = "1" | "N" :: _ :: _ :: b :: _ -> b = "1" | _ -> false
 let mk_opts pred builtin level m =
   { io_pred = (if pred = "1" then PDelta else PNone); io_builtin = (builtin = "1"); io_method = z_of_int m; io_level = z level }
 let to_attribute a m : attribute =
@@ -31,6 +31,7 @@ let to_attribute a m : attribute =
         (match String.split_on_char ':' ex with
          | [org; rg] -> Some (List.map z (String.split_on_char ',' org), z rg) | _ -> failwith "explicit") in
       KQuant (z q, e, mk_opts pred builtin level m)
+    | ["N"; q; pred; builtin; level] -> KNormal (z q, mk_opts pred builtin level m)
     | _ -> failwith "kind" in
   { a_desc = a.desc; a_kind = k; a_rows = a.rows }
 let parse_md h = if h = "-" then None else
@@ -65,13 +66,19 @@ let enc_case ~mesh toks =
    | Some h -> h
    | None -> "NOMATCH " ^ (let h = List.hd results in if String.length h > 300 then String.sub h 0 300 else h))
 
+(* every float32 NaN is printed as 0x7fc00000 (as the harness does): NaN payloads are not portable across arithmetic *)
+let canon_nan (d : att_desc) (v : z) =
+  if int_of_z d.ad_dt = 9 then
+    (let i = int_of_z v in if i land 0x7f800000 = 0x7f800000 && i land 0x007fffff <> 0 then z_of_int 0x7fc00000 else v)
+  else v
 let rows_hex (d : att_desc) (rows : z list list) =
   let w = nat_of_int (int_of_z (dt_len d.ad_dt)) in
-  hex_of_bytes (List.concat_map (fun row -> List.concat_map (fun v -> enc_le w v) row) rows)
+  hex_of_bytes (List.concat_map (fun row -> List.concat_map (fun v -> enc_le w (canon_nan d v)) row) rows)
 let att_out (a : dec_att) =
   let d = a.da_desc in
   Printf.sprintf "%s.%s.%s.%d.%s.%s%s" (string_of_z d.ad_type) (string_of_z d.ad_dt) (string_of_z d.ad_nc)
     (if d.ad_norm then 1 else 0) (string_of_z d.ad_uid) (rows_hex d a.da_rows)
+    (match a.da_oct with None -> "" | Some q -> ".O" ^ string_of_z q) ^
     (match a.da_tdata with
      | None -> ""
      | Some p -> ".T" ^ string_of_z p.qp_bits ^ String.concat "" (List.map (fun m -> "," ^ string_of_z (bits_of_f32 m)) p.qp_min)
